@@ -246,10 +246,11 @@ def finish(mod, acc: Acc, tier: str, seed: int, t0: float, min_evals: int = 1) -
     replay_paths = []
     if unknown:
         rc = 1
-        os.makedirs(os.path.join(VERIF_DIR, "replays"), exist_ok=True)
+        rdir = os.environ.get("VERIF_REPLAY_DIR") or os.path.join(VERIF_DIR, "replays")
+        os.makedirs(rdir, exist_ok=True)
         for key, v in unknown:
             safe = "".join(c if c.isalnum() or c in "-_" else "_" for c in key)[:60]
-            path = os.path.join(VERIF_DIR, "replays", f"{mod.ID}-{safe}.json")
+            path = os.path.join(rdir, f"{mod.ID}-{safe}.json")
             with open(path, "w") as fh:
                 json.dump({"property": mod.ID, "key": key, "tier": tier, "seed": seed, "count": v["count"],
                            "what": v["what"], "witnesses": v["witnesses"]}, fh, indent=1, default=_json_default)
